@@ -336,6 +336,7 @@ func runC15(c *Check) {
 	c.rulePooledBufferNotStored("R9", 8)
 	c.ruleDecodeLoopsKeepEveryElement("R10", 10)
 	c.ruleSpentOutputsPerInput("R11")
+	c.ruleTxStateStoredAsGiven("R12")
 	c.Touch(c.P.Fn("storage.FetchTxState"))
 }
 
